@@ -136,6 +136,8 @@ type Func struct {
 	Export     bool   `json:"export,omitempty"`
 	Callback   bool   `json:"callback,omitempty"`
 	Info       bool   `json:"info,omitempty"`
+	LocPC      bool   `json:"loc_pc,omitempty"`     // Provide with LocationForPC(<another declared function>): the ID must still be this function's
+	ReuseInfo  bool   `json:"reuse_info,omitempty"` // Provide fills the Info struct the previous accepted Provide filled
 
 	Salt  int64 `json:"salt,omitempty"`   // decides data-dependent stub behaviour (e.g. flatten lengths); survives renumbering
 	Cat   int   `json:"cat"`              // catalogue index, -1 for a dynamic stub
